@@ -8,6 +8,11 @@ namespace Petl.Snapshot
 open Petl.Gen
 
 def expectedC05 : List (String × String) := [
+  ("file:comparison.py", "17971f67ee946013"),
+  ("file:config.py", "142bde514c82c29d"),
+  ("file:transform/basics.py", "ef1ded632cafe787"),
+  ("file:transform/sorts.py", "137f7e8a70e043fe"),
+  ("file:util/base.py", "771a68108eeb730d"),
   ("transform.sorts.MergeSortView", "737d0646d5facf91"),
   ("transform.sorts.SortView", "39c82fa00f3f0fc2"),
   ("transform.sorts._Keyed", "584fe9dce5893b72"),
